@@ -130,19 +130,13 @@ ApproxZipfDistribution<IntType>::UpdateCDF()
     zipf_cdf_.at(n_ - 1) = 1.0;
   } else {
     // compute a base probability approximately
-    constexpr size_t kSkipSize = 100;
     auto base_prob = 0.0;
     IntType i = 1;
     while (i < static_cast<IntType>(kExactBinNum) + 1) {  // compute exact values
       base_prob += 1.0 / pow(i++, alpha_);
     }
-    while (i < n_ + 1) {  // compute approximate values
-      const auto low = 1.0 / pow(i, alpha_);
-      i += kSkipSize;
-      const auto high = 1.0 / pow(i, alpha_);
-      base_prob += (low + high) * kSkipSize / 2;
-    }
-    base_prob = 1.0 / base_prob;
+    // normalise the exact part with the same total as the approximate part
+    base_prob = GetHarmonicNum(static_cast<IntType>(kExactBinNum)) / (denom_ * base_prob);
 
     // create a CDF according to Zipf's law
     zipf_cdf_.at(0) = base_prob;
